@@ -149,6 +149,13 @@ def gen_commented(ctx, n):
                 in_kv += 1
             elif first == "END" and in_kv:
                 in_kv -= 1
+            if kind == "opener" and rng.random() < .12:
+                # the same comment text twice above one opener (a ruler above and below a title): both must be written
+                k += 1
+                ruler = rng.choice([f"# ------ {k} {i}", f"#=== {k}-{i}"])
+                for c in (ruler, f"# title {k} {i}", ruler):
+                    res.append("  " + c)
+                    claims.append((c, "above", first))
             if rng.random() < .25:
                 k += 1
                 c = rng.choice([f"# note {k} {i}", f"/* block {k} {i} */", f"#n{k}-{i} with 'quotes' \"x\"",
@@ -287,13 +294,16 @@ def explore(ctx, scale=1.0):
             # ---- placement (claimed cases only) ----
             if claims:
                 olines = out.split("\n")
+                written = collections.Counter(c for c, _, _ in claims)
+                seen = collections.Counter()
                 for c, where, first in claims:
                     hits = [j for j, l in enumerate(olines) if c in l]
                     ctx.count(f"claim:{where}")
-                    if len(hits) != 1:
-                        ctx.violation(f"placement:{where}:lost", f"comment {c!r} ({where} {first}) is printed {len(hits)} times", dict(rep, printed=out[:3000]))
+                    if len(hits) != written[c]:
+                        ctx.violation(f"placement:{where}:lost", f"comment {c!r} ({where} {first}), written {written[c]} time(s), is printed {len(hits)} times", dict(rep, printed=out[:3000]))
                         break
-                    j = hits[0]
+                    j = hits[seen[c]]
+                    seen[c] += 1
                     if where == "eol":
                         # the physical line may be the last line of a multi-line /* */ comment written earlier on the keyword's line
                         start = j
@@ -306,8 +316,12 @@ def explore(ctx, scale=1.0):
                             break
                     else:
                         # directly above the opener: only comment lines between it and the opener line
+                        in_comment = set()
+                        for a, region in comment_regions(out):
+                            if olines[a].strip().startswith(("#", "/*")):      # a comment line of its own (not a trailing comment)
+                                in_comment.update(range(a, a + region.count("\n") + 1))
                         jj = j + 1
-                        while jj < len(olines) and olines[jj].strip()[:1] in ("#", "/"):
+                        while jj < len(olines) and jj in in_comment:
                             jj += 1
                         w = olines[jj].split() if jj < len(olines) else []
                         if olines[j].strip() != c or not w or w[0].upper() != first:
